@@ -404,3 +404,58 @@ def specs(prog, tier):                                    # noqa: F811
     for sp in out:
         sp.optional = True        # upgrades: unbounded arity where the code has the supported shapes
     return out
+
+
+def fam_g_compute_synthetic_partials(cls):
+    def run(prog, tier):
+        from .symbolic import make_synth_accumulator
+        from .. import synth
+        fd = cls.lookup("_compute_synthetic_partials")
+
+        def setup(I):
+            pt = H.make_point(I)
+            kname = z3.Const("kname", sym.Name)
+            I.ghost["ambient_names"] = [kname]
+            qm(I).add_name(kname)
+            slf = make_self_g(I, cls)
+            m = I.contracts.make_child(I, "m")
+            acc, base = make_synth_accumulator(I, [kname])
+            I.ghost.update({"self": slf, "pt": pt, "kname": kname, "acc": acc, "m": m,
+                            "state0": (kname,) + tuple(base.state_for(I, kname))})
+            return lambda: I.call_funcdef(fd, [slf, acc, m], {})
+
+        def post(I, res, emit):
+            g = I.ghost
+            slf, pt, k, acc, m = g["self"], g["pt"], g["kname"], g["acc"], g["m"]
+            if res.outcome[0] == "raise":
+                emit("no-exception", ["C05", "C17"], z3.BoolVal(False), info=f"{H.exc_kind(res.outcome[1])} at {res.outcome[2]}")
+                return
+            (_k, absent0, old) = g["state0"]
+            in_vars = sym.member(k, spec.vars_of(I, slf))
+            fam = I.ghost["family"]
+            qm(I).foralls.append((fam.length, lambda t: z3.Implies(
+                z3.Not(sym.member(k, spec.vars_of(I, fam.child(I, t)))), spec.den(I, fam.child(I, t), pt).dV(k) == 0)))
+            for ci, (cond, absent1, new) in enumerate(synth.final_views(I, acc.fields["_synthetic_partials"], k)):
+                emit(f"entry-present-iff-was-present-or-variable-occurs#{ci}", ["C05"],
+                     z3.Implies(cond, absent1 == z3.And(absent0, z3.Not(in_vars))))
+                if new is None:
+                    continue
+                emit(f"accumulates-symbolically#{ci}", ["C05"],
+                     z3.Implies(cond, synth.accumulate_clause(I, pt, k, absent0, old, absent1, new, slf, m)))
+                vs = sym.union(sym.union(synth.old_vars(I, absent0, old), spec.vars_of(I, m)), spec.vars_of(I, slf))
+                emit(f"mentions-no-new-variable#{ci}", ["C05"],
+                     z3.Implies(z3.And(cond, z3.Not(absent1)), gmode.skolem_subset(I, spec.vars_of(I, new), vs, "accvars")))
+        return H.run_family(prog, f"{cls.name}[any arity]._compute_synthetic_partials", setup, post)
+    return FamilySpec(f"{cls.name}[any arity]._compute_synthetic_partials", ["C05", "C17", "C06", "C07"], run,
+                      functions=[f"{cls.name}._compute_synthetic_partials"])
+
+
+_specs4 = specs
+
+
+def specs(prog, tier):                                    # noqa: F811
+    out = _specs4(prog, tier)
+    sp = fam_g_compute_synthetic_partials(prog.classes["Add"])
+    sp.optional = True
+    out.append(sp)
+    return out
